@@ -389,7 +389,13 @@ impl FarmSim {
         let what = format!("step {}: {} closes {:?} of position {:?} at {}", self.steps, self.label(sender.as_str()), lp_asset.as_ref().map(|c| c.amount.u128()), p, self.w.now());
         let wpre = self.weights_pre(owner.as_str(), &p.lp);
         let pre = Snapshot::take(&self.w);
-        let r = self.w.pos(&sender, fm::PositionAction::Close { identifier: p.id.clone(), lp_asset: lp_asset.clone() }, &[]);
+        // an explicit identifier is stored as "u-<identifier>": the bare identifier names nothing
+        let bare = p.id.strip_prefix("u-").filter(|b| pos % 7 == 3 && !self.l.positions.contains_key(*b)).map(|x| x.to_string());
+        let valid = valid && bare.is_none();
+        if bare.is_some() {
+            st.bump("position close: by the identifier without its prefix");
+        }
+        let r = self.w.pos(&sender, fm::PositionAction::Close { identifier: bare.clone().unwrap_or(p.id.clone()), lp_asset: lp_asset.clone() }, &[]);
         let post = Snapshot::take(&self.w);
         let ok = r.is_ok();
         st.bump(if ok { "position close: ok" } else { "position close: rejected" });
@@ -491,7 +497,13 @@ impl FarmSim {
         };
         let wpre = self.weights_pre(owner.as_str(), &p.lp);
         let pre = Snapshot::take(&self.w);
-        let r = self.w.pos(&sender, fm::PositionAction::Withdraw { identifier: p.id.clone(), emergency_unlock: emergency }, &[]);
+        // an explicit identifier is stored as "u-<identifier>": the bare identifier names nothing
+        let bare = p.id.strip_prefix("u-").filter(|b| pos % 7 == 3 && !self.l.positions.contains_key(*b)).map(|x| x.to_string());
+        let valid = valid && bare.is_none();
+        if bare.is_some() {
+            st.bump("position withdraw: by the identifier without its prefix");
+        }
+        let r = self.w.pos(&sender, fm::PositionAction::Withdraw { identifier: bare.clone().unwrap_or(p.id.clone()), emergency_unlock: emergency }, &[]);
         let post = Snapshot::take(&self.w);
         let ok = r.is_ok();
         st.bump(if ok { "position withdraw: ok" } else { "position withdraw: rejected" });
